@@ -13,9 +13,13 @@ package pool
 //@ spec func stored(p *Pool, i int, x any) bool = pooltyp(&p.pool[i], x) != nil
 //@ spec func SI(p *Pool, i int, x any, s int) bool = implies(0 <= i && i < len(p.pool) && stored(p, i, x), pooltyp(&p.pool[i], x) == statictypeid(x) && implies(0 <= s && s <= pmath.maxintHeadBit && idx(p, class(p, s)) == i, capOf(x) >= s))
 //@ field Pool.size closure New$1(stepSize = self.stepSize)
+//@ property C19 C12
+//@ field Pool.* constructed_by New
 //@ field Pool.pool immutable New
 //@ field Pool.size immutable New
 //@ field Pool.stepSize immutable New
+//@ field Pool.pool elemsync
+//@ property C19
 
 //@ func New$1
 //@   mode bv
